@@ -94,6 +94,36 @@ pub fn check_doc(key: &str, text: &str) -> Option<String> {
     None
 }
 
+/// one case of the shared-lines stream: the library is loaded, `edited` receives `edits` through didChange, then every
+/// note is formatted through the LSP and must keep its atoms
+fn shared_lines_case(state: &HashMap<String, String>, edited: &str, edits: &[String], ext: &str) -> Option<String> {
+    let mut server = server_for(state, ext);
+    let mut now = state.clone();
+    for t in edits {
+        server.handle_did_change_text_document(lsp_types::DidChangeTextDocumentParams {
+            text_document: lsp_types::VersionedTextDocumentIdentifier { uri: uri_for(edited), version: 2 },
+            content_changes: vec![lsp_types::TextDocumentContentChangeEvent { range: None, range_length: None, text: t.clone() }],
+        });
+        now.insert(edited.to_string(), t.clone());
+    }
+    let mut keys: Vec<&String> = state.keys().collect();
+    keys.sort();
+    for k in keys {
+        let edits = server.handle_document_formatting(DocumentFormattingParams {
+            text_document: TextDocumentIdentifier { uri: uri_for(k) },
+            options: FormattingOptions::default(),
+            work_done_progress_params: Default::default(),
+        });
+        let out = edits.first().map(|e| e.new_text.clone()).unwrap_or_default();
+        let dir = crate::oracle::md::dir_of(k);
+        let (a, b) = (md::atoms(&now[k], &dir), md::atoms(&out, &dir));
+        if a != b {
+            return Some(format!("after editing {:?}, formatting {:?}: {} — output {:?}", edited, k, first_atom_diff(&a, &b), out.chars().take(300).collect::<String>()));
+        }
+    }
+    None
+}
+
 fn shrink_doc(key: &str, text: &str, bad: impl Fn(&str) -> bool) -> String {
     let mut cur = text.to_string();
     loop {
@@ -140,6 +170,24 @@ pub fn run(ctx: &Ctx, model: &mut Model, rep: &mut Report) {
         }
         let (k, t) = (v["key"].as_str().unwrap_or("a"), v["text"].as_str().unwrap_or(""));
         rep.evaluations += 1;
+        if v["kind"] == "reader_flat" {
+            if let Some(c) = crate::events::compare_flat(model, t) {
+                if c.impl_holds == Some(false) {
+                    rep.fail(json!({"kind": "reader_flat", "key": k, "text": t, "what": format!("the reader's blocks do not carry exactly the text the parser reported: {}", c.detail)}));
+                }
+            }
+            return;
+        }
+        if v["kind"] == "content_after_edit_of_another_note" {
+            let state: HashMap<String, String> = v["library"].as_object().map(|o| o.iter().map(|(k, t)| (k.clone(), t.as_str().unwrap_or("").to_string())).collect()).unwrap_or_default();
+            let edits: Vec<String> = v["edits"].as_array().map(|a| a.iter().map(|e| e.as_str().unwrap_or("").to_string()).collect()).unwrap_or_default();
+            let edited = v["edited"].as_str().unwrap_or("a").to_string();
+            let ext = v["ext"].as_str().unwrap_or("").to_string();
+            if let Ok(Some(what)) = dump::catch(|| crate::act::with_via(crate::act::via_from(&v["via"]), || shared_lines_case(&state, &edited, &edits, &ext))) {
+                rep.fail(json!({"kind": "content_after_edit_of_another_note", "library": v["library"], "edited": edited, "edits": edits, "ext": ext, "via": v["via"], "what": what}));
+            }
+            return;
+        }
         if let Some(what) = crate::act::with_via(crate::act::via_from(&v["via"]), || check_doc(k, t)) {
             rep.fail(json!({"kind": "content", "key": k, "text": t, "via": v["via"], "what": what}));
         }
@@ -284,33 +332,8 @@ pub fn run(ctx: &Ctx, model: &mut Model, rep: &mut Report) {
         rep.case(&format!("{:?}{:?}", state, edits), true);
         rep.count("shared_line_libraries");
         rep.evaluations += 1;
-        let verdict = dump::catch(|| {
-            crate::act::with_via(via, || {
-                let mut server = server_for(&state, ext);
-                let mut now = state.clone();
-                for t in &edits {
-                    server.handle_did_change_text_document(lsp_types::DidChangeTextDocumentParams {
-                        text_document: lsp_types::VersionedTextDocumentIdentifier { uri: uri_for(edited), version: 2 },
-                        content_changes: vec![lsp_types::TextDocumentContentChangeEvent { range: None, range_length: None, text: t.clone() }],
-                    });
-                    now.insert(edited.to_string(), t.clone());
-                }
-                for k in keys {
-                    let edits = server.handle_document_formatting(DocumentFormattingParams {
-                        text_document: TextDocumentIdentifier { uri: uri_for(k) },
-                        options: FormattingOptions::default(),
-                        work_done_progress_params: Default::default(),
-                    });
-                    let out = edits.first().map(|e| e.new_text.clone()).unwrap_or_default();
-                    let dir = crate::oracle::md::dir_of(k);
-                    let (a, b) = (md::atoms(&now[k], &dir), md::atoms(&out, &dir));
-                    if a != b {
-                        return Some(format!("after editing {:?}, formatting {:?}: {} — output {:?}", edited, k, first_atom_diff(&a, &b), out.chars().take(300).collect::<String>()));
-                    }
-                }
-                None
-            })
-        });
+        let edits_v: Vec<String> = edits.clone();
+        let verdict = dump::catch(|| crate::act::with_via(via, || shared_lines_case(&state, edited, &edits_v, ext)));
         if let Ok(Some(what)) = verdict {
             rep.fail(json!({"kind": "content_after_edit_of_another_note", "library": state, "edited": edited, "edits": edits, "ext": ext, "via": format!("{:?}", via), "what": what}));
         }
